@@ -24,6 +24,8 @@ claimed = {
  "C08": dict(text="The real engine (sm.States from Start to End under the real statemachine.Run, with the real actions state machine) runs every plan shape within the bound against the model plugin (each invocation's verdict a solver variable), the model vault (durable image + write log) and models of the worker pool / sync.Group / retry library; Concurrency and ToleratedFailures are 64-bit solver variables; schedules are explored up to a delay bound at plugin entry/exit. At every plugin entry the action is durably Running with all earlier attempts durable and the previous action durably Completed; on every write a block, sequence or sequence action that was durably Completed/Failed keeps its status; the plan is durably terminal when Run returns.", ref="6/C08", note=NOTE),
  "C09": dict(text='A forward run of the real engine produces its durable write log; the crash index c (0..n) is a solver variable and the durable image after c writes is built as ite chains over the log (only the number of stored attempts is split), so the recovery code itself partitions the crash points it can tell apart. A second engine instance runs the real States.Recovery/fixPlan/fixBlock/fixSeq/fixAction and the normal state chain from that image. Asserted for every c: no plugin call for a sequence action whose success (Completed status or error-free finished attempt) or failure was durable, none inside a durably Completed/Failed sequence or block, durable successful attempts are kept.', ref="6/C09", note=NOTE),
  "C10": dict(text="Same crash/recovery construction as C09. Asserted for every crash index: the recovering run terminates (deadlock and step budget are faults), C04's consistency predicate holds on the final durable image, deferred groups of entered non-bypassed scopes have run, nothing executes afterwards, and with one verdict variable per action shared by both processes the recovered plan's status equals the uninterrupted one. Four genuine recovery defects found this way are listed in known_findings.json (F-10a..d) and reported as KNOWN-FINDING.", ref="6/C10", note=NOTE),
+ "C11": dict(text="Arbitrary store content (plan and action status any 64-bit value, symbolic timestamps on plan and a nested object), symbolic maximum age and symbolic clock: the real recover state machine (start/fetchPlans/filterPlans/agedOut), lastUpdate, runningToFailed, Plans.recover and runPlan run with a recording runner. Per plan the solver decides: not Running => no write, not resumed; Running and last+max < now => closed Failed/ExceedRecovery, nothing left Running in storage, not resumed, no plugin; otherwise (boundary included) resumed exactly once and untouched. A second harness runs the real execute.New with recovery on/off.",
+             ref="6/C11", note=NOTE),
 }
 NA = {
  "C17": "quantifies over Go type shapes and the code is reflection from top to bottom (reflect, html/template, deep.MustCopy); go/ssa gives no semantics for reflect and types are not SMT values, so a solver would decide nothing (DESIGN.md section 7)",
